@@ -5,6 +5,7 @@
 //! C18 round-robin fairness
 
 use crate::{
+    real_client::{gen_conforming_stream, Exch, RealResult},
     runner::{Prop, Tier, Verdict},
     server_world::*,
     tape::{hash_str, mix, Tape},
@@ -36,6 +37,34 @@ struct Scenario {
     singles: Vec<usize>,
     suspends: bool,
     mode: String,
+    /// per client: `Some(program)` = a real zlink client instead of a byte-level script
+    real: Vec<Option<Vec<Exch>>>,
+}
+
+/// Program for a real client: partitions its calls into low-level / proxy / chain exchanges.
+fn gen_program(t: &mut Tape, ncalls: usize) -> Vec<Exch> {
+    let style = t.draw(4); // 0 mixed, 1 low-level only, 2 proxy only, 3 chains only
+    let mut prog = Vec::new();
+    let mut i = 0;
+    while i < ncalls {
+        let k = if style == 0 { 1 + t.draw(3) } else { style };
+        match k {
+            1 => {
+                prog.push(Exch::Low);
+                i += 1;
+            }
+            2 => {
+                prog.push(Exch::Proxy);
+                i += 1;
+            }
+            _ => {
+                let n = (1 + t.draw(4)).min(ncalls - i);
+                prog.push(Exch::Chain(n));
+                i += n;
+            }
+        }
+    }
+    prog
 }
 
 fn fault_kinds() -> usize {
@@ -72,11 +101,24 @@ fn gen_scenario(kind: Kind, w: &mut W) -> Scenario {
     let mut clients = Vec::new();
     let mut late = Vec::new();
     let mut singles = Vec::new();
+    let mut real: Vec<Option<Vec<Exch>>> = Vec::new();
     match kind {
         Kind::C08 | Kind::C10 => {
             let n = 1 + t.draw(if kind == Kind::C08 { 4 } else { 3 });
+            // 0: scripted clients only, 1: every client is a real zlink client, 2..3: mixed
+            let real_mode = t.draw(4);
             for c in 0..n {
                 let ncalls = t.draw(6);
+                let is_real = real_mode == 1 || (real_mode >= 2 && t.draw(2) == 1);
+                if is_real {
+                    let calls: Vec<CallSpec> = (0..ncalls)
+                        .map(|_| if kind == Kind::C10 && t.draw(3) == 2 { gen_conforming_stream(t) } else { gen_call(t, false, true) })
+                        .collect();
+                    real.push(Some(gen_program(t, calls.len())));
+                    clients.push(ClientSpec { cid: 10 + c as u32, calls, faults: vec![], pingpong: false, closes: t.draw(2) == 1, after_quiet: false });
+                    late.push(None);
+                    continue;
+                }
                 let calls = (0..ncalls).map(|_| gen_call(t, kind == Kind::C10, true)).collect();
                 let mut faults = Vec::new();
                 if kind == Kind::C10 && t.draw(5) == 4 {
@@ -84,6 +126,7 @@ fn gen_scenario(kind: Kind, w: &mut W) -> Scenario {
                 }
                 clients.push(ClientSpec { cid: 10 + c as u32, calls, faults, pingpong: t.draw(3) == 2, closes: t.draw(2) == 1, after_quiet: false });
                 late.push(None);
+                real.push(None);
             }
         }
         Kind::C09 => {
@@ -145,7 +188,8 @@ fn gen_scenario(kind: Kind, w: &mut W) -> Scenario {
         }
     }
     let mode = format!("seeded cfg={:?} service_suspends={suspends}", w.cfg);
-    Scenario { clients, late, singles, suspends, mode }
+    real.resize(clients.len(), None);
+    Scenario { clients, late, singles, suspends, mode, real }
 }
 
 /// Small fixed scenarios whose interleavings are enumerated by the digits that follow on the tape
@@ -211,7 +255,8 @@ fn sys_scenario(kind: Kind, w: &mut W) -> Scenario {
     while late.len() < clients.len() {
         late.push(None);
     }
-    Scenario { clients, late, singles, suspends: false, mode: format!("systematic spec={spec}") }
+    let real = vec![None; clients.len()];
+    Scenario { clients, late, singles, suspends: false, mode: format!("systematic spec={spec}"), real }
 }
 
 impl Prop for ServerProp {
@@ -247,9 +292,25 @@ impl Prop for ServerProp {
             verif_hooks::set_max_buffer_size(C09_LIMIT);
         }
         if want_sample || world.borrow().want_sample {
-            world.borrow_mut().scenario = Some(json!({"mode": sc.mode, "clients": sc.clients.iter().map(describe_client).collect::<Vec<_>>() }));
+            world.borrow_mut().scenario = Some(json!({"mode": sc.mode, "clients": sc.clients.iter().zip(sc.real.iter()).map(|(c, r)| {
+                let mut d = describe_client(c);
+                if let Some(p) = r {
+                    d["real_zlink_client_program"] = json!(format!("{p:?}"));
+                }
+                d
+            }).collect::<Vec<_>>() }));
         }
-        let infos: Vec<ConnInfo> = sc.clients.iter().map(|c| install_client(world, c)).collect();
+        let infos: Vec<ConnInfo> = sc.clients.iter().zip(sc.real.iter()).map(|(c, r)| if r.is_some() { install_real_client(world, c) } else { install_client(world, c) }).collect();
+        let mut real_results: Vec<Option<std::rc::Rc<std::cell::RefCell<RealResult>>>> = vec![None; sc.clients.len()];
+        let mut reals = Vec::new();
+        for (i, (c, r)) in sc.clients.iter().zip(sc.real.iter()).enumerate() {
+            if let Some(prog) = r {
+                let result = std::rc::Rc::new(std::cell::RefCell::new(RealResult::default()));
+                real_results[i] = Some(result.clone());
+                reals.push(RealClient { spec: c.clone(), prog: prog.clone(), c2s: infos[i].c2s, s2c: infos[i].s2c, result });
+                world.borrow_mut().stat("real_zlink_clients");
+            }
+        }
         {
             let mut w = world.borrow_mut();
             // C18: single callers deliver their call in one piece; arrival moments via gates
@@ -270,7 +331,39 @@ impl Prop for ServerProp {
             w.step_cap = 400 * total as u64 + 50_000;
         }
 
-        let run = run_server(world, sc.suspends);
+        let run = run_server_with(world, sc.suspends, reals);
+
+        // ------------------------------------------------------------------ real clients' own view
+        for (i, rr) in real_results.iter().enumerate() {
+            let Some(rr) = rr else { continue };
+            let rr = rr.borrow();
+            let spec = &sc.clients[i];
+            let (reference, _) = reference_output(spec.cid, &spec.calls);
+            for (k, seen) in rr.seen.iter().enumerate() {
+                let Some(want) = reference.get(k) else {
+                    return Err((format!("{id}/client-observed-extra-reply"), format!("real client {} (calls {:?}, program {:?}) was handed {} replies, the reference execution owes {}; surplus: {}", spec.cid, spec.calls, sc.real[i], rr.seen.len(), reference.len(), seen.value)));
+                };
+                let mut want = want.clone();
+                if !seen.has_flag {
+                    if let Some(o) = want.as_object_mut() {
+                        o.remove("continues");
+                    }
+                }
+                if want != seen.value {
+                    return Err((format!("{id}/client-observed-wrong-reply"), format!("real client {} (calls {:?}, program {:?}): reply {k} came out of the client API as {}, the reference execution gives {want}", spec.cid, spec.calls, sc.real[i], seen.value)));
+                }
+            }
+            if let Some(e) = &rr.error {
+                return Err((format!("{id}/client-api-error"), format!("real client {} (calls {:?}, program {:?}) at call {}: {e}", spec.cid, spec.calls, sc.real[i], rr.at_call)));
+            }
+            if !rr.done {
+                return Err((format!("{id}/client-blocked-at-quiescence"), format!("real client {} (calls {:?}, program {:?}) is still waiting at call {} with {} of {} replies received although nothing is in flight any more", spec.cid, spec.calls, sc.real[i], rr.at_call, rr.seen.len(), reference.len())));
+            }
+            if rr.seen.len() != reference.len() {
+                return Err((format!("{id}/client-missed-replies"), format!("real client {} finished its program with {} of {} replies", spec.cid, rr.seen.len(), reference.len())));
+            }
+            world.borrow_mut().stat_add("real_client_replies_checked", rr.seen.len() as u64);
+        }
 
         // ------------------------------------------------------------------ common oracle
         if run.server_finished {
